@@ -1,5 +1,5 @@
 SPECIFICATION Spec
-CONSTANTS Workers = {w1, w2, w3}  MaxIter = 0  AllowCancel = FALSE  BodiesEnd = FALSE  PreCancelled = FALSE  SyncFlag = TRUE
+CONSTANTS ParamSet <- P_3x0  AllowCancel = FALSE  BodiesEnd = FALSE  SyncFlag = TRUE
 INVARIANTS Gapless Unique
 PROPERTIES AllBusy
 CHECK_DEADLOCK FALSE
